@@ -371,6 +371,68 @@ def forced_stream(ctx, drv):
         check_codebase(ctx, drv, desc, root, "forced-missing", cli=True)
 
 
+def shapes_fixed_stream(ctx, drv):
+    """one include directive evaluated several times with another outcome each time, one file content several times:
+    (a) a selecting header `#include IMPL` reached by two translation units of one platform whose -DIMPL differ (first the
+    existing file then a dangling name, and in the other platform the other way round) and twice in one unit with the macro
+    redefined in between; (b) byte-identical copies, in two directories, of a header and of a source that hold directives
+    the analysis does not implement; (c) a header that is guarded only in part (guard block, then an implementation
+    section with dangling includes), included twice with the section's macro defined in between"""
+    texts = {
+        "src/sel.h": ["#include IMPL", "int after;"],
+        "src/impl_a.h": ["int impl_a;"],
+        "src/u1.c": ['#include "sel.h"', "int u1;"],
+        "src/u2.c": ['#include "sel.h"', "int u2;"],
+        "src/x.c": ['#define IMPL "impl_a.h"', '#include "sel.h"', "#undef IMPL", '#define IMPL "impl_gone.h"', '#include "sel.h"', "#undef IMPL",
+                    "#define IMPL <impl_gone.h>", '#include "sel.h"', "#undef IMPL", '#define IMPL "impl_a.h"', '#include "sel.h"', "int x;"],
+        "third/zlite/zcompat.h": ["#ifndef ZCOMPAT_H", "#define ZCOMPAT_H", '#ident "zlite 1.0"', "#line 9", "#include_next <stdio.h>", "int z;", "#endif"],
+        "tools/third/zlite/zcompat.h": ["#ifndef ZCOMPAT_H", "#define ZCOMPAT_H", '#ident "zlite 1.0"', "#line 9", "#include_next <stdio.h>", "int z;", "#endif"],
+        "gen/a/stub.c": ["#assert machine(x)", "int stub;"],
+        "gen/b/stub.c": ["#assert machine(x)", "int stub;"],
+        "src/list.h": ["// interface", "#ifndef LIST_H", "#define LIST_H", "int list;", "#endif", "#ifdef LIST_IMPLEMENTATION", '#include "list_impl.h"',
+                       "#include <list_arch.h>", "#endif"],
+        "src/util.h": ["#ifndef UTIL_H", "#define UTIL_H", '#include "util_gone.h"', "#endif"],
+        "src/list.c": ['#include "list.h"', '#include "util.h"', "#define LIST_IMPLEMENTATION", '#include "list.h"', '#include "util.h"',
+                       '#include "../third/zlite/zcompat.h"', '#include "../tools/third/zlite/zcompat.h"', "int l;"],
+        "src/main.c": ['#include "list.h"', '#include "list.h"', "int main;"],
+    }
+
+    def ent(f, *a):
+        return {"file": f, "directory": ".", "arguments": ["gcc"] + list(a) + ["-c", f]}
+
+    plats = {"cpu": [ent("src/u1.c", '-DIMPL="impl_a.h"'), ent("src/u2.c", '-DIMPL="impl_gone.h"'), ent("src/u1.c", "-DIMPL=<impl_gone.h>"),
+                     ent("src/x.c"), ent("src/list.c"), ent("src/main.c"), ent("gen/a/stub.c")],
+             "gpu": [ent("src/u2.c", '-DIMPL="impl_gone.h"'), ent("src/u1.c", '-DIMPL="impl_a.h"'), ent("src/list.c"), ent("src/main.c", "-DLIST_IMPLEMENTATION"),
+                     ent("gen/b/stub.c")]}
+    desc = fixed_desc(texts, plats)
+    with core.Scratch() as d:
+        root = os.path.realpath(str(d))
+        CB.write_codebase(root, desc)
+        check_codebase(ctx, drv, desc, root, "shapes-fixed", cli=True)
+
+
+def shape_stream(ctx, drv, budget_s=40.0):
+    """random code bases of the shared generator with the shapes of `warnbase.add_shapes` grafted on: computed includes whose
+    macro differs between the units of one platform and between two inclusions in one unit, byte-identical copies of files
+    with unknown directives, partially guarded headers included twice"""
+    n = ctx.n(32, 220)
+    t0 = time.time()
+    for i in range(n):
+        if time.time() - t0 > budget_s:
+            ctx.notes.append(f"shape stream: time budget reached after {i} code bases")
+            break
+        shapes = list(WB.SHAPES) if i % 4 == 3 else [WB.SHAPES[i % 4]]
+        with core.Scratch() as d:
+            root = os.path.realpath(str(d))
+            desc = WB.gen(ctx.rng, root, shapes=shapes)
+            ctx.dist["shape_codebases"] += 1
+            for t in desc["shapes"]:
+                ctx.dist["shape:" + t] += 1
+            before = len(ctx.violations)
+            check_codebase(ctx, drv, desc, root, f"shapes:{i}:{'+'.join(shapes)}", cli=(i < 4))
+            ctx.dist["shape_violations"] += len(ctx.violations) - before
+
+
 REPR_WORDS = ["x", "1", "'a'", '"s"', '"it\'s"', "a\\b", "`", "'\\n'", '"q\\"r"', "<y.h>", "@", "é", "a  b", "\t", "(", "##"]
 
 
@@ -436,7 +498,12 @@ def run(ctx, drv, cap=None):
                 "although a file of the same relative path exists under the root; plus fully honoured code bases; the command line is also run "
                 "with -v / -v -v / --debug (the totals must not change); commands of multi-pass compilers (nvcc, icpx -fsycl) whose source has includes only the "
                 "device passes, only the host pass and every pass reach; a stream of unknown directives with quotes, backslashes and leading white space "
-                "(Python list repr, column). Non-trivial = distinct code base whose expected events span at least two "
+                "(Python list repr, column); a stream of the same code bases with three shapes grafted on (and one fixed code base holding all three): "
+                "a selecting header `#include MACRO` reached by several translation units of one platform whose -DMACRO differ and several times in one "
+                "unit with the macro redefined in between (values that exist / do not exist, quote / angle), byte-identical copies of a header or source "
+                "with unknown directives in several directories (included, compiled or just lying in the tree), a partially guarded header (guard block "
+                "followed by a conditional section with dangling includes) included two or three times with the section's macro defined in between. "
+                "Non-trivial = distinct code base whose expected events span at least two "
                 "categories including an unresolved include.")
     ctx.assumptions += [
         "expected include events come from an independent reference preprocessor; for a macro redefined with a different body "
@@ -462,6 +529,7 @@ def run(ctx, drv, cap=None):
             check_codebase(ctx, drv, c["desc"], root, "corpus:" + f.name, cli=True)
     memo_stream(ctx, drv)
     forced_stream(ctx, drv)
+    shapes_fixed_stream(ctx, drv)
     repr_stream(ctx, drv)
     n = ctx.n(260, 1200)
     ncli = min(ctx.n(22, 120), 120)
@@ -470,6 +538,8 @@ def run(ctx, drv, cap=None):
             ctx.notes.append(f"time budget reached after {i} code bases")
             break
         gen_and_check(ctx, drv, i, cli=(i % max(1, n // ncli) == 0), quiet=(i % 9 == 8))
+    # after the random stream (whose inputs per VERIF_SEED stay what they were), with a wall-clock budget of its own
+    shape_stream(ctx, drv, budget_s=(120.0 if ctx.thorough() and cap is None else 40.0))
     d30_stream(ctx, drv)
 
 
